@@ -187,6 +187,13 @@ def run_case(case):
         return {"ineligible": "reference run not converged"}
     nat = len(Z)
     Fref = ref["force"][0]
+    # evaluators with an inner central-difference step (anal_grad.delta = 1e-5 A) amplify the round-off noise of the
+    # overlap recursion, which is not rotation invariant; allowance derived in props/c01_force_gradient.py (DESIGN 14.3)
+    inner = 0.0
+    if mode not in ("autodiff", "autodiff-d", "uhf", "cutoff"):
+        from props import c01_force_gradient as c01
+        inner = 2.0 * c01.inner_step_allowance(method, Z)  # two independent noisy evaluations are compared
+    tol_f = TOL_F + inner
 
     cur = {}
 
@@ -219,7 +226,7 @@ def run_case(case):
         bad = []
         if upd("net_force", sF, 1e-7 * nat):
             bad.append(("net-force", sF))
-        if upd("net_torque", tq, 5e-6 * nat * rmax):
+        if upd("net_torque", tq, (5e-6 + 0.5 * inner) * nat * rmax):
             bad.append(("net-torque", tq))
         return bad
 
@@ -297,7 +304,7 @@ def run_case(case):
         if upd("d_q", d, TOL_Q):
             bad.append(("charges", d))
         d = np.abs(out["force"][0] - Fref @ R.T).max()
-        if upd("d_force", d, TOL_F):
+        if upd("d_force", d, tol_f):
             bad.append(("force-covariance", d))
         if out.get("dipole") is not None and ref.get("dipole") is not None and q == 0:
             d = np.abs(out["dipole"][0] - ref["dipole"][0] @ R.T).max()
@@ -341,7 +348,7 @@ def run_case(case):
                 if k == 0 or exc_ok[k - 1]:
                     mon["state_forces_compared"] = mon.get("state_forces_compared", 0) + 1
                     dd = np.abs(out["all_forces"][0][k] - ref["all_forces"][0][k] @ R.T).max()
-                    if upd("d_all_forces", dd, TOL_F):
+                    if upd("d_all_forces", dd, tol_f):
                         bad.append(("all-forces-covariance-state%d" % k, dd))
             for key in ("state_dip_relaxed", "state_dip_unrelaxed"):
                 if out.get(key) is not None and ref.get(key) is not None and q == 0:
